@@ -766,6 +766,15 @@ void Analyser::AnalyserImpl::analyseNode(const XmlNodePtr &node,
                                          const ComponentPtr &component,
                                          const AnalyserInternalEquationPtr &equation)
 {
+    // Make sure that we have a node to analyse.
+    // Note: a node is missing when an element has fewer MathML children than we look for, e.g. an 'apply'
+    //       element with only one child (which then stands for that child) or a 'piecewise' element with no
+    //       children (which then has no value), both of which the validator accepts.
+
+    if (node == nullptr) {
+        return;
+    }
+
     // Create the AST, if needed.
 
     if (ast == nullptr) {
